@@ -68,7 +68,7 @@ impl Scenario for C07 {
       &["executor with FIFO / any-ready-task policy (sim)", "timer, wall clock (sim)"],
     )
   }
-  fn generate(&self, rng: &mut Rng, _tier: Tier) -> Value {
+  fn generate(&self, rng: &mut Rng, tier: Tier) -> Value {
     let op = match rng.below(8) {
       0 | 1 => MOp::ObserveOn,
       2 | 3 => MOp::Delay(*rng.pick(&[0u32, 3, 10, 50, 200, 200, 12_000, 20_005])),
@@ -80,7 +80,8 @@ impl Scenario for C07 {
     let sub_like = matches!(op, MOp::DelaySubscription(_) | MOp::DelaySubscriptionAt(_) | MOp::SubscribeOn);
     let cold = if sub_like || rng.chance(1, 4) { Some(rng.below(5)) } else { None };
     let mut acts = Vec::new();
-    let len = rng.range(3, 24);
+    let deep = deepen(rng, tier);
+    let len = rng.range(3, 24 * deep);
     for i in 0..len {
       let late = i * 3 > len * 2;
       acts.push(match rng.weighted(&[if cold.is_some() { 0 } else { 7 }, if late && cold.is_none() { 3 } else { 0 }, if late && cold.is_none() { 1 } else { 0 }, 7, 2, 3]) {
